@@ -1017,7 +1017,7 @@ def gen_c10(seed, tier):
     r = g.r
     nidp = g.rl.pick([1, 2, 2])
     idps = [g.add_idp(i, want_authn_requests_signed=g.rl.chance(0.4), slack=g.rl.pick([None, 0, 3, 60]),
-                      only_md_keys=g.rl.pick([None, None, False]))
+                      only_md_keys=g.rl.pick([None, None, False]), only_valid_cert=g.rl.chance(0.15))
             for i in range(nidp)]
     nsp = g.rl.pick([1, 2])
     sps = [g.add_sp(i, sign_requests=g.rl.chance(0.5), slack=g.rl.pick([None, 0, 60])) for i in range(nsp)]
